@@ -36,7 +36,13 @@ TDICT = [O(0x2000, 0, True, True, "int", [1, 2, 3, 4]), O(0x2001, 0, True, False
          dict(O(0x2040, 3, True, False, "int", [0x78 + NODE, 0x56, 0x34, 0x12]), hflags=0xC0, stored=[0x78, 0x56, 0x34, 0x12]),
          dict(O(0x2040, 4, True, False, "int", [0xF0 + NODE]), hflags=0x40, stored=[0xF0]),
          dict(O(0x2040, 5, True, False, "int", [0x10 + NODE, 0x20]), hflags=0x40, stored=[0x10, 0x20]),
-         dict(O(0x2040, 6, True, False, "int", [9]), hflags=0x80, stored=[9])]
+         dict(O(0x2040, 6, True, False, "int", [9]), hflags=0x80, stored=[9]),
+         # WRITABLE node-id relative entries of every width ("store written value minus node id"): the reference holds the value a
+         # client reads; a dump shows the raw storage and is converted (raw + node id) before it goes into the trace
+         dict(O(0x2041, 1, True, True, "int", [0x21]), hflags=0x40, stored=[0x21 - NODE], nid=True),
+         dict(O(0x2041, 2, True, True, "int", [0x00, 0x31]), hflags=0x40, stored=[(0x3100 - NODE) & 255, (0x3100 - NODE) >> 8], nid=True),
+         dict(O(0x2041, 3, True, True, "int", [0x80, 0x01, 0x00, 0x00]), hflags=0x40, stored=[0x80 - NODE, 0x01, 0x00, 0x00], nid=True)]
+NID_OBJS = {(o["idx"], o["sub"]) for o in TDICT if o.get("nid")}
 TDICT.sort(key=lambda o: (o["idx"], o["sub"]))          # the dictionary must be sorted
 MISSING = [(0x2000, 1), (0x3000, 0), (0x0FFF, 0), (0x2010, 9), (0x2010, 0), (0x2021, 0), (0xFFFF, 255), (0xA100, 2), (0xA101, 0), (0x9FFF, 0), (0xFFFE, 255)]
 
@@ -63,7 +69,7 @@ class Client:
         self.ev.append(["rx", RX, 8] + f)
 
     def dump(self, o):
-        if "stored" not in o:          # (a dump shows the raw storage)
+        if "stored" not in o or o.get("nid"):          # (a dump shows the raw storage)
             self.ev.append(["dump", o["idx"], o["sub"]])
 
     def target(self, pred=None):
@@ -80,6 +86,17 @@ class Client:
     def payload(self, n):
         return [self.r.randint(0, 255) for _ in range(n)]
 
+    def value_for(self, o, n):
+        """payload of a download to an integer object: random, or - half of the time - one of a few values around the object's
+        initial one (the value itself, +- the node id, zero, the node id), so that a value is written again, written over its own
+        raw representation, or written next to it (change detection / node-id arithmetic in the integer types)"""
+        r = self.r
+        if o is None or o["kind"] != "int" or n != len(o["data"]) or r.random() < 0.5:
+            return self.payload(n)
+        v0 = sum(b << (8 * i) for i, b in enumerate(o["data"]))
+        v = r.choice([v0, v0 - NODE, v0 + NODE, 0, NODE, v0 ^ (1 << (8 * n - 1)), v0 ^ (1 << (8 * (n - 1)))]) % (1 << (8 * n))
+        return le(v, n)
+
     # ---- dialogues; each returns the object it touched (or None)
     def exp_dl(self):
         r = self.r
@@ -89,7 +106,9 @@ class Client:
             c = 0x23 | ((4 - n) << 2)
         else:
             c = r.choice([0x22, 0x22 | (r.randint(0, 3) << 2)])
-        self.rx([c] + m + self.payload(4))
+        self.rx([c] + m + (self.value_for(o, n) + self.payload(4 - n)))
+        if o is not None and o["r"] and r.random() < 0.4:
+            self.rx([0x40] + m)                         # read it back at once
         return o
 
     def seg_dl(self):
@@ -104,7 +123,7 @@ class Client:
             self.rx([0x21] + m + le(ann, 4))
         else:
             self.rx([0x20] + m + (self.payload(4) if r.random() < 0.3 else [0, 0, 0, 0]))
-        data = self.payload(L)
+        data = self.value_for(o, L)
         t = 0
         pos = 0
         stop = r.randint(0, (L + 6) // 7) if r.random() < self.w["abandon"] else -1
@@ -350,7 +369,10 @@ def run(ctx, nbeh, ndlg=8, nfiles=16, profile=None, nsrv=1):
                         del rec["other"]
                     else:
                         ob = [it for it in obs if it[0] == "obj"]
-                        rec = dict(e="dump", idx=e[1], sub=e[2], data=ob[0][3:] if ob else [])
+                        raw = ob[0][3:] if ob else []
+                        if raw and (e[1], e[2]) in NID_OBJS:        # node-id relative: the reference holds raw + node id
+                            raw = le((sum(b << (8 * i) for i, b in enumerate(raw)) + NODE) % (1 << (8 * len(raw))), len(raw))
+                        rec = dict(e="dump", idx=e[1], sub=e[2], data=raw)
                     f.write(json.dumps(rec) + "\n")
                     linemap.append((bi, si))
                     nev += 1
@@ -395,6 +417,7 @@ def run(ctx, nbeh, ndlg=8, nfiles=16, profile=None, nsrv=1):
     ctx.mc_runs.append(dict(mode="trace-validation", module="CoSsdoTrace", servers=nsrv, traces=len(res), behaviours=nbeh, events=nev, determined_requests_compared=ndet))
     ctx.extra["recorded_trace_events"] = ctx.extra.get("recorded_trace_events", 0) + nev
     ctx.extra["recorded_requests_with_determined_response"] = ctx.extra.get("recorded_requests_with_determined_response", 0) + ndet
+    ctx.checkpoint()
     if nacc and ndet < nacc // 4:
         raise vlib.Infra("sdo trace validation is nearly vacuous: %d of %d events compared" % (ndet, nev))
     return nev, ndet
